@@ -346,6 +346,113 @@ def evaluate(step, E, qexp, nq):
     return out
 
 
+# ---------------------------------------------------------------- type names: "each identifier occurrence in an expression or type"
+TFLAGS = st.fixed_dictionaries({'tl': st.integers(0, 2), 'gf': st.integers(0, 2), 'gb': st.integers(0, 2), 'tf': st.integers(0, 2), 'tb': st.integers(0, 2),
+                                'tb2': st.booleans(), 'name': st.sampled_from(['TY', 'int8_t', 'Ty_2'])})
+
+
+def build_types(f):
+    """the type name TY is declared globally (always, first) and at a drawn subset of: template declarations, a global function body, a block in
+    it, a template function body, a block in it (0 absent, 1 early, 2 late); probe variables of type TY are declared before and after each
+    typedef, inside and after each scope. -> (xml, emitter); a use is a probe variable name, its expected k the innermost preceding typedef"""
+    E = Emitter()
+    TY = f['name']
+    probes = []
+
+    def probe(where):
+        E.lit += 1
+        k, nvis, outer = E.lookup()
+        E.uses.append({'lit': E.lit, 'expect': k, 'visible': nvis, 'outermost': outer, 'where': where})
+        return 'pv%d' % E.lit
+
+    def typedef(level):
+        return 'typedef int[0,%d] %s;' % (E.declare(level), TY)
+
+    def body(fn, fl, bl, level, extra_block=False):
+        # declarations come first in a block; nested blocks and loops are statements and follow them
+        E.push()
+        s = ['void %s(%s %s) {' % (fn, TY, probe(level + '-parameter'))]
+        s.append('%s %s;' % (TY, probe(level + '-body-start')))
+        if fl == 1:
+            s.append(typedef(level + '-local'))
+        s.append('%s %s;' % (TY, probe(level + '-after-early-typedef')))
+        if fl == 2:
+            s.append(typedef(level + '-local'))
+        s.append('%s %s;' % (TY, probe(level + '-body-end')))
+        E.push()
+        s.append('{ %s %s;' % (TY, probe(level + '-block-start')))
+        if bl:
+            s.append(typedef(level + '-block'))
+        arr = probe(level + '-block-array')
+        s.append('%s %s[2];' % (TY, arr))
+        s.append('%s %s;' % (TY, probe(level + '-block-end')))
+        if extra_block:
+            E.push()
+            s.append('{ %s %s; %s %s %s; }' % (TY, probe(level + '-inner-block-start'), typedef(level + '-inner-block'), TY, probe(level + '-inner-block-end')))
+            E.pop()
+        s.append('for (z : %s) { %s[0] = z; } }' % (TY, arr))
+        E.pop()
+        s.append('}')
+        E.pop()
+        return ' '.join(s)
+
+    g = []
+    if TY != 'int8_t':        # int8_t is a type name of the built-in declarations: the outermost level is already there
+        g.append(typedef('global'))
+    else:
+        E.declare('built-in')
+        E.decls[E.nextk] = 'built-in'
+    g.append('%s %s;' % (TY, probe('global')))
+    g.append(body('gfn', f['gf'], f['gb'], 'global-function', f['tb2']))
+    g.append('%s %s;' % (TY, probe('global-after-function')))
+    E.push()
+    tdecl = ['%s %s;' % (TY, probe('template-start'))]
+    if f['tl'] == 1:
+        tdecl.append(typedef('template-local'))
+    tdecl.append('%s %s;' % (TY, probe('template-after-early-typedef')))
+    tdecl.append(body('tfn', f['tf'], f['tb'], 'template-function', False))
+    if f['tl'] == 2:
+        tdecl.append(typedef('template-local'))
+    tdecl.append('%s %s;' % (TY, probe('template-end')))
+    tdecl.append('struct { %s fld; } %s;' % (TY, probe('template-struct-field')))
+    sel = 's : %s' % TY
+    E.pop()
+    E.push()
+    qdecl = '%s %s;' % (TY, probe('other-template'))
+    E.pop()
+    xml = ('<nta><declaration>%s</declaration><template><name>P</name><declaration>%s</declaration><location id="id0"><name>L0</name></location><init ref="id0"/>'
+           '<transition><source ref="id0"/><target ref="id0"/><label kind="select">%s</label></transition></template>'
+           '<template><name>Q</name><declaration>%s</declaration><location id="q0"><name>K0</name></location><init ref="q0"/></template>'
+           '<system>system P, Q;</system></nta>') % (escape('\n'.join(g)), escape('\n'.join(tdecl)), escape(sel), escape(qdecl))
+    return xml, E
+
+
+def evaluate_types(step, E, builtin_bound=None):
+    out = []
+    symtab = step.get('symtab', {})
+    errs = [e['msg'] for e in step.get('errors', [])]
+    for u in E.uses:
+        keys = [k for k in symtab if k.endswith('/pv%d' % u['lit'])]
+        level = E.decls.get(u['expect'], 'none')
+        if not keys:
+            out.append(('type-name-probe-missing', level, 'the variable pv%d declared with the type name at %s is not in the document (errors: %r)' % (u['lit'], u['where'], errs[:3])))
+            continue
+        ty = symtab[keys[0]]
+        if u['where'].endswith('struct-field'):
+            continue
+        b = bound_of(ty)
+        if level == 'built-in':
+            want = '(IDENTIFIER @g/INT8_MAX)'
+        else:
+            want = '(CONSTANT %d)' % u['expect']
+        if b != want:
+            mk = re.match(r'\(CONSTANT (\d+)\)', b or '')
+            got_level = E.decls.get(int(mk.group(1)), 'unknown') if mk else ('built-in' if b == '(IDENTIFIER @g/INT8_MAX)' else 'unknown')
+            out.append(('type-name-wrong-binding', level + '->' + got_level, 'the type name at %s (variable pv%d) should denote the %s typedef int[0,%s] but the variable has type bound %s (%s) (errors: %r)'
+                        % (u['where'], u['lit'], level, u['expect'], b, got_level, errs[:2])))
+    return out
+
+
 def run_model(orc, xml, queries):
     r = orc.request([dict(entry='xml-buffer', builder='document', newxta=1, input=xml, dump='doc,diag,symtab', actions='queries', queries='\n'.join(queries), dot_types=1)])
     if 'crash' in r:
@@ -384,6 +491,29 @@ def worker(chk, wi, nw):
 
     n = 150 if chk.tier == 'quick' else 4000
     common.run_hypothesis(chk, stats, FLAGS, test, n, chk.seed * 1000 + wi)
+
+    def test_types(f):
+        xml, E = build_types(f)
+        step = run_model(orc, xml, [])
+        levels = sorted(set(E.decls.values()))
+        stats.case(xml, nontrivial=any(u['visible'] >= 2 for u in E.uses), classes=['type-name-model'] + ['type-level:' + l for l in levels],
+                   sample={'flags': f, 'probes': len(E.uses), 'typedefs': E.decls, 'xml_prefix': xml[:400]})
+        stats.extra['type_name_use_sites'] += len(E.uses)
+        if step is None:
+            stats.extra['crashes_seen_(C01)'] += 1
+            return None
+        if step.get('exc'):
+            stats.extra['exceptions_seen'] += 1
+            return None
+        for rule, level, what in evaluate_types(step, E):
+            d = {'rule': rule, 'level': level}
+            case = {'kind': 'type-flags', 'flags': f}
+            if chk.is_known(d):
+                chk.report(stats, d, what, case)
+                continue
+            return (d, what, case)
+        return None
+    common.run_hypothesis(chk, stats, TFLAGS, test_types, n // 2, chk.seed * 1000 + 500 + wi)
     orc.close()
     return stats
 
@@ -391,6 +521,13 @@ def worker(chk, wi, nw):
 def confirm(case):
     orc = oracle.Oracle(os.path.join(common.WORK, 'C07', 'confirm'), cpu_limit=60)
     try:
+        if case.get('kind') == 'type-flags':
+            xml, E = build_types(case['flags'])
+            step = run_model(orc, xml, [])
+            if step is None or step.get('exc'):
+                return None
+            v = evaluate_types(step, E)
+            return ({}, v[0][2]) if v else None
         xml, queries, E, qexp = build(case['flags'])
         step = run_model(orc, xml, queries)
         if step is None or step.get('exc'):
